@@ -918,7 +918,7 @@ class VC:
 
     def loop_entry(self, label, live):
         spec = self.loops[label]
-        if spec.indexed:
+        if getattr(spec, 'indexed', False):
             cur().ghost['idx:' + label] = tm.const(0, INT)
         if spec.entry:
             for name, cl in spec.entry(live, cur()).items():
@@ -936,7 +936,7 @@ class VC:
             ctx.ghost[('first', label)] = True
             return tuple(live.get(k) for k in names)
         ctx.ghost[('first', label)] = False
-        if spec.indexed:
+        if getattr(spec, 'indexed', False):
             gi = ctx.newvar('i', INT)
             assume(gi >= 0)
             ctx.ghost['idx:' + label] = gi
@@ -958,7 +958,7 @@ class VC:
         if spec.peel and ctx.ghost.get(('first', label)):
             assume(tm.lift(N) > 0)
             return tm.const(0, INT)
-        if spec.indexed:
+        if getattr(spec, 'indexed', False):
             i = ctx.ghost['idx:' + label]
             assume(i < tm.lift(N))
             return i
@@ -975,14 +975,14 @@ class VC:
             return tm.const(-1, INT)
         if spec.peel:
             assume(tm.lift(N) >= 1)
-        if spec.indexed:
+        if getattr(spec, 'indexed', False):
             assume(ctx.ghost['idx:' + label] >= tm.lift(N))
         # the loop ran to completion; the target keeps its last value N-1
         return tm.sub(tm.lift(N), tm.const(1, INT)) if isinstance(N, T) else N - 1
 
     def loop_step(self, label, live):
         spec = self.loops[label]
-        if spec.indexed:
+        if getattr(spec, 'indexed', False):
             cur().ghost['idx:' + label] = cur().ghost['idx:' + label] + 1
         for name, cl in spec.inv(live, cur()).items():
             check('%s/loop-invariant/step/%s' % (label, name), cl)
